@@ -8,10 +8,13 @@ def run(tier, seed, t0):
     return _sess.run_session_check(
         PROP, tier, seed, t0,
         families=[("connclose", 500, 8000), ("consumer", 100, 1500), ("close_slow", 6, 48), ("reply_then_close", 150, 2500),
-                  ("connclose_cross", 150, 2500), ("midframe_close", 60, 1000), ("close_window", 60, 1000), ("cancel_close_race", 9, 90), ("mixed", 150, 2000)],
-        own_kinds=('connclose', 'backlog-midframe', 'listener-closewindow'),
+                  ("connclose_cross", 150, 2500), ("midframe_close", 60, 1000), ("close_window", 60, 1000), ("cancel_close_race", 9, 90), ("mixed", 150, 2000),
+                  ("close_throttled", 30, 500)],
+        own_kinds=('connclose', 'backlog-midframe', 'listener-closewindow', 'backlog-closethrottled'),
         mc_jobs=[("MC_Conn_close_q.cfg", None, "quick"), ("MC_Conn_close.cfg", None, "thorough"),
                  ("MC_Conn_close_bug.cfg", "SealedShrinks", None),
+                 # the client's Close takes in what the channels had handed over (and did not, before 9d1e86f)
+                 ("MC_Conn_closeleaves_bug.cfg", "CloseTakesAll", None),
                  # towards a protocol-abiding server (own view of open channels / consumers, crossing closes
                  # answered, nothing sent for what it closed) the I/O thread never ends with an internal error:
                  # Connection::close reports the server's close or Ok; without compliance the invariant fails
